@@ -274,6 +274,147 @@ def live_suite(ctx, vh, name, args):
                        "case": keep[i]}, no_input=True)
 
 
+# ------------------------------------------------------------------ one broadcast in flight vs one reconnection
+CHDR = "From SioV Require Import Base.GoSem Adapter.Session Adapter.SessionCheck Adapter.SessionConc Adapter.SessionConcCheck.\n"
+
+
+def conc_addressed(c):
+    rooms = (c.get("sessrooms") or []) + [109]
+    to, ex = c.get("to") or [], c.get("except") or []
+    return ((not to) or any(r in to for r in rooms)) and not any(r in ex for r in rooms)
+
+
+def conc_term(c):
+    """c08ConcCase -> SessionConcCheck.ccase: the schedule is rebuilt from the implementation's event order
+    (the log append of the code as modelled precedes the encoding of the payload)."""
+    sched, begun, joined, joined_at_begin, visited = [], False, False, False, False
+    addressed = conc_addressed(c)
+
+    def begin():
+        nonlocal begun, joined_at_begin
+        if not begun:
+            sched.append("SBegin")
+            begun, joined_at_begin = True, joined
+
+    for e in c["events"]:
+        if e == "enc":
+            sched.append("SAppend")
+        elif e == "del:s9":
+            begin()
+            sched.append("SVisit")
+            visited = True
+        elif e.startswith("del:"):
+            begin()
+        elif e.startswith("restore:"):
+            sched.append("SRestore")
+        elif e == "join":
+            sched.append("SJoin")
+            joined = True
+        elif e == "visible":
+            if begun and joined_at_begin and addressed and not visited and "del:s9" not in c["events"]:
+                sched.append("SVisit")   # visited before it became visible: sockets.Get failed, nothing delivered
+                visited = True
+            sched.append("SVisible")
+        elif e == "env":
+            if c["env"] == "C":
+                sched.append("SEnv OClean")
+            elif c["env"] == "PR":
+                sched.append("SEnv (OPersist (mkSess 8%N 8%N [108%N]))")
+                sched.append("SEnv (ORestore 8%%N %s)" % gN(c["offidx"] or 900001))
+            elif c["env"] == "B":
+                sched.append("SEnv (OBroadcast KEvent 777%N (mkOpts [99%N] []))")
+        elif e == "ret":
+            begin()
+            if joined_at_begin and addressed and not visited:
+                sched.append("SVisit")   # visited without a delivery (socket not yet visible)
+                visited = True
+            sched.append("SEnd")
+    h = ["ev 0%%Z (OBroadcast KEvent %s (mkOpts [] []))" % gN(i + 1) for i in range(c["pre"])]
+    h.append("ev 0%%Z (OPersist (mkSess 9%%N 9%%N %s))" % nl((c.get("sessrooms") or []) + [109]))
+    return "mkCC 3600000%%Z 9%%N %s 500%%N %s %s %s %s %s %s %s %s %s" % (
+        gN(c["offidx"] or 900001), nl(c.get("to")), nl(c.get("except")), glist(h), glist(sched),
+        gbool(c["restore_ok"]), gN(c["missed_p"]), nl(c.get("missed_pre")), gN(c["live_p"]), gbool(c["logged"]))
+
+
+def conc_key(c):
+    """Finding class of a failing case, decided on the event order (mirrors key_in_flight / key_not_atomic)."""
+    ev = c["events"]
+    ri = next((i for i, e in enumerate(ev) if e.startswith("restore:true")), None)
+    if ri is None:
+        return None
+    inlog = ev[ri].endswith(":1")
+    total = c["missed_p"] + c["live_p"]
+    vi = ev.index("visible") if "visible" in ev else len(ev)
+    between = any(e == "enc" or e == "ret" or e.startswith("del:") for e in ev[ri + 1:vi])
+    if total == 0 and conc_addressed(c) and between and not inlog:
+        return "reconnect-not-atomic"
+    before_ret = "ret" in ev[ri:]
+    if inlog and before_ret and c["live_p"] >= 1 and (total == 2 or not conc_addressed(c)):
+        return "reconnect-during-broadcast"
+    return None
+
+
+def conc_suite(ctx, vh, n):
+    t0 = time.time()
+    rows = ctx.vh_jsonl(vh, "session", ["-mode", "conc", "-seed", ctx.seed, "-n", n])
+    ctx.note("suite conc: harness %.1fs" % (time.time() - t0))
+    if rows is None:
+        return
+    terms = [conc_term(r) for r in rows]
+    for r in rows:
+        ev = r["events"]
+        inside = any(e.startswith("restore") for e in ev) and "ret" in ev and \
+            ev.index(next(e for e in ev if e.startswith("restore"))) < ev.index("ret") and "enc" in ev[:ev.index(next(e for e in ev if e.startswith("restore")))]
+        key = None
+        if inside:
+            key = ("conc", tuple(tuple(x or ()) for x in r["others"]), tuple(r.get("sessrooms") or ()), tuple(r.get("to") or ()),
+                   tuple(r.get("except") or ()), r["pos_restore"], r["pos_join"], r["pos_visible"], r["env"], r["env_pos"])
+        ctx.count(1, nontrivial_key=key, dist="conc:%s" % ("inside-broadcast" if inside else "outside"))
+    ctx.sample({"suite": "session/conc", "case": rows[len(rows) // 3]}, limit=7)
+    bad_both = ctx.coq_eval_cases("conc_both", CHDR, terms, "both_conc", shard=200)
+    sub = [terms[i] for i in bad_both]
+    bad_oracle = [bad_both[j] for j in ctx.coq_eval_cases("conc_oracle", CHDR, sub, "oracle_conc", shard=200)]
+    bad_agree = [bad_both[j] for j in ctx.coq_eval_cases("conc_agree", CHDR, sub, "agree_conc", shard=200)]
+    # known classes: the Go-side classification and the Coq predicates must say the same thing
+    keyed = {i: conc_key(rows[i]) for i in bad_oracle}
+    for key, fn in (("reconnect-not-atomic", "key_not_atomic"), ("reconnect-during-broadcast", "key_in_flight")):
+        idx = [i for i in bad_oracle if keyed[i] == key]
+        wrong = ctx.coq_eval_cases("conc_" + fn, CHDR, [terms[i] for i in idx], fn, shard=200)
+        for j in wrong:
+            keyed[idx[j]] = None   # the two classifiers disagree: not excused
+    unknown = [i for i in bad_oracle if keyed[i] is None]
+    ctx.obligation("correspondence:session/conc", "correspondence", not bad_agree,
+                   "%d placements of a reconnection around/inside a broadcast, %d disagree" % (len(rows), len(bad_agree)))
+    ctx.obligation("oracle:session/conc", "oracle", not unknown,
+                   "%d placements, %d fail (%d in known classes)" % (len(rows), len(bad_oracle), len(bad_oracle) - len(unknown)))
+    seen = set()
+    for i in bad_oracle:
+        if keyed[i] and keyed[i] not in seen:
+            seen.add(keyed[i])
+            ctx.fail_or_known(keyed[i], conc_text(rows[i]), {"kind": "failing-input", "engine": "session -mode conc",
+                                                              "case": rows[i]})
+    for i in sorted(unknown, key=lambda i: len(rows[i]["events"]))[:3]:
+        ctx.violation(conc_text(rows[i]), {"kind": "failing-input", "engine": "session -mode conc", "case": rows[i]})
+    if bad_agree and not unknown:
+        i = bad_agree[0]
+        ctx.violation("session-aware adapter no longer interleaves a broadcast and a reconnection the way the model "
+                      "Adapter/SessionConc.v does; first differing placement: %s" % conc_text(rows[i]),
+                      {"kind": "correspondence-broken", "suite": "session/conc",
+                       "theorems": ["C08_concurrent_no_gap", "C08_concurrent_exactly_once_partial"], "case": rows[i]},
+                      no_input=True)
+
+
+def conc_text(r):
+    return ("broadcast to=%s except=%s with connected sockets in rooms %s; session rooms %s (offset = packet %s of %d "
+            "logged before); reconnection steps at positions restore=%d join=%d visible=%d (-2 before the call, -1 while "
+            "the payload is encoded, i = inside the i-th delivery callback)%s; events %s -> restore ok=%s, P replayed x%d, "
+            "delivered live x%d (addressed=%s): the packet must reach a recovered session exactly once" % (
+                r.get("to") or [], r.get("except") or [], r["others"], r.get("sessrooms") or [], r["offidx"], r["pre"],
+                r["pos_restore"], r["pos_join"], r["pos_visible"],
+                (", env %s at %d" % (r["env"], r["env_pos"])) if r["env"] else "", r["events"], r["restore_ok"],
+                r["missed_p"], r["live_p"], conc_addressed(r)))
+
+
 def run(ctx):
     ctx.rule = ("histories of Broadcast(to/except, event / event-with-ack / ack) / PersistSession / clean-up pass / "
                 "RestoreSession / time steps on the real session-aware adapter; non-trivial = a restore succeeded with "
@@ -286,7 +427,7 @@ def run(ctx):
     ctx.assumptions = ["yeast offset ids handed out along a history are pairwise distinct (checked on every history)",
                        "time.Now() is non-decreasing"]
     t0 = time.time()
-    ctx.proofs(modules=["Adapter/SessionCheck"])
+    ctx.proofs(modules=["Adapter/SessionCheck", "Adapter/SessionConcCheck"])
     ctx.note("proofs+audit %.1fs" % (time.time() - t0))
     t0 = time.time()
     vh = ctx.go_build()
@@ -311,6 +452,8 @@ def run(ctx):
         live_suite(ctx, vh, "live", ["-seed", ctx.seed, "-n", 24 if q else 240, "-par", 6])
     if want("live-binary"):
         live_suite(ctx, vh, "live-binary", ["-seed", ctx.seed + 1, "-n", 16 if q else 160, "-par", 6, "-bin"])
+    if want("conc"):
+        conc_suite(ctx, vh, 150 if q else 3000)
     if want("timed"):
         history_suite(ctx, vh, "timed", ["-mode", "timed", "-seed", ctx.seed, "-n", 150 if q else 1500, "-tick", 20,
                                          "-par", 16])
